@@ -21,7 +21,7 @@ Inductive pop :=
 | PSubmit (txs : list Z)                  (* addTransactions *)
 | PSubmitItx (i : Z)                      (* addInternalTransaction *)
 | PSelfEvent (gate : bool)                (* addSelfEvent: gate = LastRound >= acceptedRound *)
-             (ok : bool)                  (* signAndInsertSelfEvent returned nil *)
+             (ok : bool)                  (* the self-event was inserted (since /repo fix: also when a consensus method failed after the insertion) *)
              (during_txs during_itxs : list Z).  (* appended to the pools while the insertion ran *)
 
 Definition pstep (p : pools) (o : pop) : pools :=
